@@ -434,6 +434,40 @@ Proof.
   - unfold I. cbn [fst snd]. right. split; [split; [split; reflexivity|unfold zat; cbn [lpos]; lia]|unfold zat; cbn [lpos]; lia].
 Qed.
 
+Lemma scan_reach_gen {R} (rcur : R -> lx) c d l (body : lx -> res (lp lx R)) p q fuel a h rh : cfg_ok c -> tb c <> [] -> html_inv d l -> is_region c d p q ->
+  lpos (lz l) <= a <= p ->
+  (forall s x, body s = Ok x -> match x with Cont s' => samele s s' | Brk r => samele s (rcur r) end) ->
+  (forall i, a <= i < p -> prefixb (tb c) (skipz i d) = false -> body (zat l i) = Ok (Cont (zat l (i + 1)))) ->
+  (forall i, a <= i < p -> prefixb (tb c) (skipz i d) = false) ->
+  loop fuel (with_tmpl_lx c body) (zat l a, h) = Ok rh ->
+  snd rh = true /\ q <= lpos (rcur (fst rh)).
+Proof.
+  intros Hc Htb Hi Hreg Ha Hfwd Hstep Hnp H. unfold with_tmpl_lx in H.
+  destruct (tmpl_here c d l p q Hc Hi ltac:(lia) Hreg) as (Hatp & Hskp & Hq).
+  set (I := fun sh : lx * bool => (snd sh = true /\ samele (lz l) (fst sh) /\ q <= lpos (fst sh)) \/
+                                  (samele (lz l) (fst sh) /\ a <= lpos (fst sh) <= p)).
+  refine (with_tmpl_inv2 c (fun z : lx => z) (fun _ z' => z') I (fun r : R * bool => snd r = true /\ q <= lpos (rcur (fst r)))
+            body _ _ fuel (zat l a, h) rh _ H).
+  - intros s h1 z' HI Hat Hk. unfold I in *. cbn [fst snd] in *. left. split; [reflexivity|].
+    destruct HI as [(_ & Hs & Hqs)|(Hs & Hr)].
+    + pose proof (tmpl_skip_run _ _ _ Hk) as Hkr. split; [eapply samele_trans; eauto|destruct Hkr; lia].
+    + destruct Hs as [Hsm Hle]. rewrite (same_zat l s Hsm) in Hat, Hk.
+      destruct (Z.eq_dec (lpos s) p) as [E|E].
+      * rewrite E, Hskp in Hk. injection Hk as <-. split; [split; [split; reflexivity|unfold zat; cbn [lpos]; lia]|unfold zat; cbn [lpos]; lia].
+      * exfalso. rewrite (tmpl_at_zat c d l (lpos s) Hc Htb Hi ltac:(lia)) in Hat. rewrite (Hnp (lpos s) ltac:(lia)) in Hat. discriminate.
+  - intros s h1 x HI Hat Hx. unfold I in *. cbn [fst snd] in *.
+    destruct HI as [(Hh & Hs & Hqs)|(Hs & Hr)].
+    + specialize (Hfwd s x Hx). destruct x as [s'|r]; cbn [fst snd].
+      * left. split; [exact Hh|]. split; [eapply samele_trans; eauto|destruct Hfwd; lia].
+      * split; [exact Hh|]. destruct Hfwd as [_ Hf]. lia.
+    + destruct Hs as [Hsm Hle]. rewrite (same_zat l s Hsm) in Hat, Hx.
+      destruct (Z.eq_dec (lpos s) p) as [E|E].
+      * exfalso. rewrite E in Hat. unfold tmpl_at in Hat. rewrite (has_delims_true c Htb), Hatp in Hat. discriminate.
+      * rewrite (Hstep (lpos s) ltac:(lia) (Hnp (lpos s) ltac:(lia))) in Hx. injection Hx as <-. cbn [fst snd]. right.
+        split; [split; [split; reflexivity|unfold zat; cbn [lpos]; lia]|unfold zat; cbn [lpos]; lia].
+  - unfold I. cbn [fst snd]. right. split; [split; [split; reflexivity|unfold zat; cbn [lpos]; lia]|unfold zat; cbn [lpos]; lia].
+Qed.
+
 (* comments: "<!--" at the cursor, then bytes [a+4,p) at which neither a delimiter nor "-->" / "--!>" starts, then a region *)
 Definition comment_plain (c : cfg) (d : list Z) (i : Z) : Prop :=
   0 <= i < len d /\ prefixb (tb c) (skipz i d) = false /\
@@ -800,14 +834,75 @@ Proof.
   apply (finish_token c d l _ _ _ q Hc Hi Hn); [discriminate|discriminate|]. cbn [lz]. rewrite (shiftv_pos _ _ Es). cbn [mv lpos]. lia.
 Qed.
 
+(* bogus comments "</" + non-letter: bytes [a+2,p) that are gt_plain, then a region *)
+Lemma html_template_bogus_slash_proof : forall c d l p q, cfg_ok c -> tb c <> [] -> html_inv d l -> intag l = false -> rawtag l = 0 ->
+  let a := lpos (lz l) in
+  prefixb (tb c) (skipz a d) = false -> getz d a = 60 -> getz d (a + 1) = 47 -> a + 2 < len d ->
+  is_letter (getz d (a + 2)) = false -> getz d (a + 2) <> 62 -> a + 2 <= p ->
+  (forall i, a + 2 <= i < p -> gt_plain c d i) -> is_region c d p q ->
+  exists v l', next c l = Ok (CommentT, Some v, l') /\ lhas l' = true /\ so v = a /\ q <= so v + sn v.
+Proof.
+  intros c d l p q Hc Htb Hi Hit Hraw a Hnp G0 G1 Ha2 G2 G3 Hap Hplain Hreg.
+  pose proof Hi as (Hl & Hlen & _). pose proof (lwf_clean l Hl Hit) as Hcl. pose proof (inv_pos0 d l Hi) as H0.
+  destruct (is_region_in _ _ _ _ Hreg) as [Hpin Hpq].
+  destruct (html_total_step_proof c d l Hc Hi) as (ty & tk & l' & Hn & Hi'). pose proof Hn as Hn0.
+  unfold next in Hn. cbn [lz rawtag intag lerr ltext lattr lhas] in Hn. rewrite Hit, Hraw in Hn. cbn [Z.eqb negb] in Hn.
+  unfold next_content in Hn. cbn [lz rawtag intag lerr ltext lattr lhas] in Hn.
+  rewrite (text_dispatch_c c d l 47 Hc Htb Hi Hcl G0 G1 ltac:(fold a; lia) Hnp) in Hn.
+  2:{ right; right; right. split; [reflexivity|]. fold a. split; [lia|exact G3]. }
+  change (if is_letter 47 then DStartTag else if 47 =? 33 then DMarkup else if 47 =? 63 then DBogusQ else DEndTag) with DEndTag in Hn. cbn [rbind] in Hn.
+  replace (mv (lz l) 2) with (zat l (a + 2)) in Hn by (unfold zat, mv, a; reflexivity).
+  rewrite (zat_pkr d l (a + 2) 0 Hi) in Hn by (unfold a in *; lia). rewrite Z.add_0_r in Hn. cbn [rbind] in Hn. rewrite G2 in Hn. cbn [negb] in Hn.
+  unfold shift_bogus in Hn.
+  destruct (loop (fuel_of (zat l (a + 2))) (with_tmpl_lx c bogus_body) (zat l (a + 2), false)) as [rh| |] eqn:El; cbn [rbind] in Hn; try discriminate.
+  assert (Hst : forall i, a + 2 <= i < p -> prefixb (tb c) (skipz i d) = false -> bogus_body (zat l i) = Ok (Cont (zat l (i + 1)))).
+  { intros i Hr _. apply (gt_step bogus_body c d l i (fun zz => eq_refl) Hi); [unfold a in *; lia|apply Hplain; exact Hr]. }
+  assert (Hnps : forall i, a + 2 <= i < p -> prefixb (tb c) (skipz i d) = false) by (intros i Hr; apply (Hplain i Hr)).
+  destruct (scan_reach_done c d l bogus_body p q _ (a + 2) false rh Hc Htb Hi Hreg ltac:(unfold a in *; lia) bogus_fwd Hst Hnps El) as [Hh Hqq].
+  cbn zeta in Hn.
+  destruct (lexeme_from (fst (fst rh)) 2) as [t| |]; cbn [rbind] in Hn; try discriminate.
+  destruct (shiftv (mv (fst (fst rh)) (snd (fst rh)))) as [s| |] eqn:Es; cbn [rbind] in Hn; try discriminate.
+  injection Hn as <- <- <-.
+  eexists _, _. split; [exact Hn0|]. cbn [lhas fst snd]. split; [exact Hh|].
+  apply (finish_token c d l _ _ _ q Hc Hi Hn0); [discriminate|discriminate|]. cbn [lz fst snd]. rewrite (shiftv_pos _ _ Es). cbn [mv lpos]. lia.
+Qed.
+
+(* plaintext content: bytes [cursor,p) at which no delimiter starts, then a region *)
+Lemma html_template_plaintext_proof : forall c d l p q, cfg_ok c -> tb c <> [] -> html_inv d l -> intag l = false ->
+  rawtag l = html_hash_Plaintext -> lpos (lz l) <= p ->
+  (forall i, lpos (lz l) <= i < p -> prefixb (tb c) (skipz i d) = false) -> is_region c d p q ->
+  exists v l', next c l = Ok (TextT, Some v, l') /\ lhas l' = true /\ so v = lpos (lz l) /\ q <= so v + sn v.
+Proof.
+  intros c d l p q Hc Htb Hi Hit Hraw Hap Hplain Hreg.
+  pose proof Hi as (Hl & Hlen & _). pose proof Hl as [Hw _]. pose proof (lwf_clean l Hl Hit) as Hcl. pose proof (inv_pos0 d l Hi) as H0.
+  destruct (is_region_in _ _ _ _ Hreg) as [Hpin Hpq].
+  assert (Hlt0 : 0 < len (tb c)) by (destruct (tb c) as [|x t]; [congruence|rewrite len_cons; pose proof (len_nonneg t); lia]).
+  destruct (html_total_step_proof c d l Hc Hi) as (ty & tk & l' & Hn & Hi'). pose proof Hn as Hn0.
+  unfold next in Hn. cbn [lz rawtag intag lerr ltext lattr lhas] in Hn. rewrite Hit, Hraw in Hn.
+  change (negb (html_hash_Plaintext =? 0)) with true in Hn. cbn [negb andb] in Hn.
+  unfold shift_rawtext in Hn. change (html_hash_Plaintext =? html_hash_Plaintext) with true in Hn.
+  rewrite <- (zat_here l) in Hn at 2.
+  destruct (loop (fuel_of (lz l)) (with_tmpl_lx c plaintext_body) (zat l (lpos (lz l)), false)) as [rh| |] eqn:El; cbn [rbind] in Hn; try discriminate.
+  assert (Hst : forall i, lpos (lz l) <= i < p -> prefixb (tb c) (skipz i d) = false -> plaintext_body (zat l i) = Ok (Cont (zat l (i + 1)))).
+  { intros i Hr _. unfold plaintext_body. rewrite (zat_pkr d l i 0 Hi) by lia. cbn [rbind].
+    unfold eof0. rewrite (at_end_zat d l i Hi ltac:(lia)), andb_false_r. reflexivity. }
+  destruct (scan_reach_gen (fun z : lx => z) c d l plaintext_body p q _ (lpos (lz l)) false rh Hc Htb Hi Hreg ltac:(lia) plaintext_step_samele Hst Hplain El) as [Hh Hqq].
+  assert (Hadv : adv (lz l) (fst rh)).
+  { destruct (safe_inv _ _ (plaintext_loop_spec c (lz l) false Hc Hw)) as (r2 & E2 & Ha). rewrite <- (zat_here l) in E2 at 2. rewrite El in E2. injection E2 as <-. exact Ha. }
+  rewrite shiftv_spec in Hn by eauto using adv_wf. cbn [rbind fst snd sn] in Hn.
+  destruct Hadv as (A1 & A2 & A3).
+  replace (0 <? lpos (fst rh) - lstart (fst rh)) with true in Hn by (symmetry; apply Z.ltb_lt; lia).
+  injection Hn as <- <- <-. eexists _, _. split; [exact Hn0|]. cbn [lhas so sn]. split; [exact Hh|]. split; lia.
+Qed.
+
 (* ---- both halves in one statement -------------------------------------------------------------------------------------- *)
 (* The positions p at which the call Next(l) looks for an opening delimiter, by context (each constructor is the
    shape of the input between the cursor and p).  Not looked at: the letters jumped over after '<' or "</" in raw
    text, script "<!--" sections and svg / math content; the bytes of "<!--", "<![CDATA[", "<?" and of the terminators
    "-->", "]]>", "?>" that are moved over at once; the blank after "<!doctype"; whitespace, '=' and the closers '>'
    "/>" inside a tag; the first two bytes of "</", "<!", "<?" and the first letter of a tag name.  (Inside svg / math
-   / xml and plaintext the lexer looks at every other position; these two contexts are covered by the second half
-   and by the witnesses, not by [looked].) *)
+   / xml content the lexer looks at every other position; that context is covered by the second half and by the
+   witnesses, not by [looked].) *)
 Inductive looked (c : cfg) (d : list Z) (l : lexer) (p : Z) : Prop :=
 | lk_text : intag l = false -> rawtag l = 0 -> p = lpos (lz l) -> looked c d l p
 | lk_attr_name a : tb_plain c -> intag l = true -> lstart (lz l) = lpos (lz l) -> lpos (lz l) <= a <= p ->
@@ -839,6 +934,12 @@ Inductive looked (c : cfg) (d : list Z) (l : lexer) (p : Z) : Prop :=
 | lk_bogus_q : intag l = false -> rawtag l = 0 -> prefixb (tb c) (skipz (lpos (lz l)) d) = false ->
     getz d (lpos (lz l)) = 60 -> getz d (lpos (lz l) + 1) = 63 -> lpos (lz l) + 1 <= p ->
     (forall i, lpos (lz l) + 1 <= i < p -> gt_plain c d i) -> looked c d l p
+| lk_bogus_slash : intag l = false -> rawtag l = 0 -> prefixb (tb c) (skipz (lpos (lz l)) d) = false ->
+    getz d (lpos (lz l)) = 60 -> getz d (lpos (lz l) + 1) = 47 -> lpos (lz l) + 2 < len d ->
+    is_letter (getz d (lpos (lz l) + 2)) = false -> getz d (lpos (lz l) + 2) <> 62 -> lpos (lz l) + 2 <= p ->
+    (forall i, lpos (lz l) + 2 <= i < p -> gt_plain c d i) -> looked c d l p
+| lk_plaintext : intag l = false -> rawtag l = html_hash_Plaintext -> lpos (lz l) <= p ->
+    (forall i, lpos (lz l) <= i < p -> prefixb (tb c) (skipz i d) = false) -> looked c d l p
 | lk_endtag : intag l = false -> rawtag l = 0 -> prefixb (tb c) (skipz (lpos (lz l)) d) = false ->
     getz d (lpos (lz l)) = 60 -> getz d (lpos (lz l) + 1) = 47 -> is_letter (getz d (lpos (lz l) + 2)) = true -> lpos (lz l) + 2 <= p ->
     (forall i, lpos (lz l) + 2 <= i < p -> gt_plain c d i) -> looked c d l p.
@@ -867,5 +968,7 @@ Proof.
   - apply (Hpack q DoctypeT); [|destruct (getz d (lpos (lz l) + 9) =? 32); lia]. eapply html_template_doctype_proof; eauto.
   - apply (Hpack q CommentT); [|lia]. eapply html_template_bogus_bang_proof; eauto.
   - apply (Hpack q CommentT); [|lia]. eapply html_template_bogus_proof; eauto.
+  - apply (Hpack q CommentT); [|lia]. eapply html_template_bogus_slash_proof; eauto.
+  - apply (Hpack q TextT); [|lia]. eapply html_template_plaintext_proof; eauto.
   - apply (Hpack q EndTagT); [|lia]. eapply html_template_endtag_proof; eauto.
 Qed.
